@@ -545,7 +545,7 @@ func init() {
 	c14Files := []string{"c14/c14.go", "gen:astkinds:ast", "gen:goastkinds", "gen:corpus:token/*.go;ast/*.go;scanner/*.go;x/xgoprojs/*.go;x/fakenet/*.go;x/watcher/*.go;format/*.go;format/formatutil/*.go;tpl/token/*.go;tpl/types/*.go;tpl/ast/*.go;env/*.go:60:12000"}
 	register(&checkSpec{
 		ID:   "C14",
-		Rule: "the same bytes go through the real XGo parser and GOROOT's go/parser (both executed from go/ssa): (a) 20 concrete well-typed Go contexts around a window of <= N symbolic bytes, (b) up to 60 .go files of the repository (embedded at check time) as a concrete corpus; when go/parser accepts, the XGo parser must accept and the tree signatures (node kinds, operator/keyword tokens, identifier names, literal values, channel directions, child structure; generated at check time from the struct definitions of both ast packages) must be equal",
+		Rule: "the same bytes go through the real XGo parser and GOROOT's go/parser (both executed from go/ssa): (a) 44 concrete well-typed Go contexts (expressions, statements, and type positions of parameters, results, fields, function types, interface methods, closures, receivers) around a window of <= N symbolic bytes, (b) up to 60 .go files of the repository (embedded at check time) as a concrete corpus; when go/parser accepts, the XGo parser must accept and the tree signatures (node kinds, operator/keyword tokens, identifier names, literal values, channel directions, child structure; generated at check time from the struct definitions of both ast packages) must be equal",
 		Assumptions: []string{
 			"the premise 'go/types type-checks' is evaluated natively during replay (go/types on the concrete counter-example): an ill-typed counter-example does not reproduce and is listed as not reproduced",
 			"window bytes are ASCII without # $ ? @ ~ (XGo-only lexemes, see C16); positions and comments are not compared",
@@ -555,7 +555,7 @@ func init() {
 		Harnesses: []harnessSpec{
 			{Name: "VxC14Corpus", Pkg: "github.com/goplus/xgo/parser", Files: c14Files, Quick: map[string]int{"N": 0, "P": 0, "KF_BANG": 0, "KF_GENERICS": 0}, MaxSteps: 80_000_000},
 			{Name: "VxC14", Pkg: "github.com/goplus/xgo/parser", Files: c14Files,
-				Quick: map[string]int{"N": 2, "KF_BANG": 0, "KF_GENERICS": 0}, Thorough: map[string]int{"N": 3, "KF_BANG": 0, "KF_GENERICS": 0}, Variants: c15Variants(20), MaxSteps: 8_000_000},
+				Quick: map[string]int{"N": 2, "KF_BANG": 0, "KF_GENERICS": 0}, Thorough: map[string]int{"N": 3, "KF_BANG": 0, "KF_GENERICS": 0}, Variants: c15Variants(44), MaxSteps: 8_000_000},
 		},
 	})
 
@@ -578,7 +578,7 @@ func init() {
 	// ---------------------------------------------------------------- C19 / C20 / C21
 	register(&checkSpec{
 		ID:   "C19",
-		Rule: "source = one of 52 concrete XGo contexts (statements, operators, calls, command calls, slice literals, comprehensions, ranges, trailing //, /* */ and # comments, doc comments, error-wrap, lambda, struct fields, var and import blocks, string interpolation, unit literals, switch, redundant parentheses and nested operands, multi-line argument and element lists, one-line function bodies, comments inside one-line bodies, lambdas, command calls, comprehensions, before c-string literals, at the end of the file) around a window of <= N symbolic bytes; when the real parser accepts it the real format.Source runs on it and its output is parsed again: no error and an equal tree",
+		Rule: "source = one of 58 concrete XGo contexts (statements, operators, calls, command calls, slice literals, comprehensions, ranges, trailing //, /* */ and # comments, doc comments, error-wrap, lambda, struct fields, var and import blocks, string interpolation, unit literals, switch, redundant parentheses and nested operands, multi-line argument and element lists, one-line function bodies, comments inside one-line bodies, lambdas, command calls, comprehensions, before c-string literals, at the end of the file) around a window of <= N symbolic bytes; when the real parser accepts it the real format.Source runs on it and its output is parsed again: no error and an equal tree",
 		Assumptions: []string{
 			"bound: windows of <= N ASCII bytes (no CR) in the listed contexts; program shapes and layout decisions over many lines are outside",
 			"tree comparison through signatures generated from the current ast package (kinds, operator tokens, names, literal values, structure); comments, explicit empty statements, redundant nested parentheses ((e)) and the order of import specs are not compared (C19)",
@@ -586,13 +586,13 @@ func init() {
 		},
 		Harnesses: []harnessSpec{
 			{Name: "VxC19", Pkg: "github.com/goplus/xgo/format", Files: []string{"c19/c19.go", "gen:astkinds:ast"},
-				Quick: map[string]int{"N": 2, "WHICH": 19, "KF_DECLSEMI": 0}, Thorough: map[string]int{"N": 3, "WHICH": 19, "KF_DECLSEMI": 0}, Variants: c15Variants(52), MaxSteps: 30_000_000},
+				Quick: map[string]int{"N": 2, "WHICH": 19, "KF_DECLSEMI": 0}, Thorough: map[string]int{"N": 3, "WHICH": 19, "KF_DECLSEMI": 0}, Variants: c15Variants(58), MaxSteps: 30_000_000},
 		},
 	})
 
 	register(&checkSpec{
 		ID:   "C20",
-		Rule: "source = one of 52 concrete XGo contexts (statements, operators, calls, command calls, slice literals, comprehensions, ranges, trailing //, /* */ and # comments, doc comments, error-wrap, lambda, struct fields, var and import blocks, string interpolation, unit literals, switch, redundant parentheses and nested operands, multi-line argument and element lists, one-line function bodies, comments inside one-line bodies, lambdas, command calls, comprehensions, before c-string literals, at the end of the file) around a window of <= N symbolic bytes; when the real parser accepts it the real format.Source runs on it and its output is formatted again and must not change",
+		Rule: "source = one of 58 concrete XGo contexts (statements, operators, calls, command calls, slice literals, comprehensions, ranges, trailing //, /* */ and # comments, doc comments, error-wrap, lambda, struct fields, var and import blocks, string interpolation, unit literals, switch, redundant parentheses and nested operands, multi-line argument and element lists, one-line function bodies, comments inside one-line bodies, lambdas, command calls, comprehensions, before c-string literals, at the end of the file) around a window of <= N symbolic bytes; when the real parser accepts it the real format.Source runs on it and its output is formatted again and must not change",
 		Assumptions: []string{
 			"bound: windows of <= N ASCII bytes (no CR) in the listed contexts; program shapes and layout decisions over many lines are outside",
 			"tree comparison through signatures generated from the current ast package (kinds, operator tokens, names, literal values, structure); comments, explicit empty statements, redundant nested parentheses ((e)) and the order of import specs are not compared (C19)",
@@ -600,13 +600,13 @@ func init() {
 		},
 		Harnesses: []harnessSpec{
 			{Name: "VxC19", Pkg: "github.com/goplus/xgo/format", Files: []string{"c19/c19.go", "gen:astkinds:ast"},
-				Quick: map[string]int{"N": 2, "WHICH": 20, "KF_DECLSEMI": 0, "KF_ONELINE_EMPTY": 0, "KF_PAREN_LINES": 0, "KF_ENV_LINES": 0}, Thorough: map[string]int{"N": 3, "WHICH": 20, "KF_DECLSEMI": 0, "KF_ONELINE_EMPTY": 0, "KF_PAREN_LINES": 0, "KF_ENV_LINES": 0}, Variants: c15Variants(52), MaxSteps: 30_000_000},
+				Quick: map[string]int{"N": 2, "WHICH": 20, "KF_DECLSEMI": 0, "KF_ONELINE_EMPTY": 0, "KF_PAREN_LINES": 0, "KF_ENV_LINES": 0}, Thorough: map[string]int{"N": 3, "WHICH": 20, "KF_DECLSEMI": 0, "KF_ONELINE_EMPTY": 0, "KF_PAREN_LINES": 0, "KF_ENV_LINES": 0}, Variants: c15Variants(58), MaxSteps: 30_000_000},
 		},
 	})
 
 	register(&checkSpec{
 		ID:   "C21",
-		Rule: "source = one of 52 concrete XGo contexts (statements, operators, calls, command calls, slice literals, comprehensions, ranges, trailing //, /* */ and # comments, doc comments, error-wrap, lambda, struct fields, var and import blocks, string interpolation, unit literals, switch, redundant parentheses and nested operands, multi-line argument and element lists, one-line function bodies, comments inside one-line bodies, lambdas, command calls, comprehensions, before c-string literals, at the end of the file) around a window of <= N symbolic bytes; when the real parser accepts it the real format.Source runs on it and the COMMENT tokens of input and output (real scanner) must be the same sequence",
+		Rule: "source = one of 58 concrete XGo contexts (statements, operators, calls, command calls, slice literals, comprehensions, ranges, trailing //, /* */ and # comments, doc comments, error-wrap, lambda, struct fields, var and import blocks, string interpolation, unit literals, switch, redundant parentheses and nested operands, multi-line argument and element lists, one-line function bodies, comments inside one-line bodies, lambdas, command calls, comprehensions, before c-string literals, at the end of the file) around a window of <= N symbolic bytes; when the real parser accepts it the real format.Source runs on it and the COMMENT tokens of input and output (real scanner) must be the same sequence",
 		Assumptions: []string{
 			"bound: windows of <= N ASCII bytes (no CR) in the listed contexts; program shapes and layout decisions over many lines are outside",
 			"tree comparison through signatures generated from the current ast package (kinds, operator tokens, names, literal values, structure); comments, explicit empty statements, redundant nested parentheses ((e)) and the order of import specs are not compared (C19)",
@@ -614,7 +614,7 @@ func init() {
 		},
 		Harnesses: []harnessSpec{
 			{Name: "VxC19", Pkg: "github.com/goplus/xgo/format", Files: []string{"c19/c19.go", "gen:astkinds:ast"},
-				Quick: map[string]int{"N": 2, "WHICH": 21, "KF_DECLSEMI": 0}, Thorough: map[string]int{"N": 3, "WHICH": 21, "KF_DECLSEMI": 0}, Variants: c15Variants(52), MaxSteps: 30_000_000},
+				Quick: map[string]int{"N": 2, "WHICH": 21, "KF_DECLSEMI": 0}, Thorough: map[string]int{"N": 3, "WHICH": 21, "KF_DECLSEMI": 0}, Variants: c15Variants(58), MaxSteps: 30_000_000},
 		},
 	})
 }
